@@ -8,6 +8,9 @@ H1Auto     == {"h1", "auto"}
 BothBool   == BOOLEAN
 OnlyFalse  == {FALSE}
 OnlyTrue   == {TRUE}
+SigNever   == {0}
+SigSome    == {0, 1, 2}
+SigFirst   == {1}
 
 \* generation: one JSON line per behaviour, printed when the environment budget is used up and settled
 GenDone  == GenMode /\ mode = "env" /\ (nenv = GenLen \/ ~ENABLED Environment)
